@@ -17,6 +17,7 @@ pub struct Out {
     pub samples: Vec<String>,
     pub oracle_fail: usize,
     pub panics: usize,
+    announced: bool,
 }
 
 fn fnv(s: &str) -> u64 {
@@ -43,17 +44,32 @@ impl Out {
             samples: Vec::new(),
             oracle_fail: 0,
             panics: 0,
+            announced: false,
         }
     }
 
     /// Record one case: the line given to the model, the implementation's canonical answer, the
     /// oracle's verdict on the implementation's answer (`None` = oracle not applicable), and
     /// whether the case is non-trivial by the property's rule.
+    /// Write (and flush) the case line BEFORE the implementation is run on it, so that if the
+    /// implementation takes the whole process down (segfault, abort) the orchestrator can name the
+    /// input: it is the case line that has no answer.
+    pub fn announce(&mut self, case: &str) {
+        writeln!(self.cases, "{} {}", self.next_id, case).unwrap();
+        self.cases.flush().unwrap();
+        self.imp.flush().unwrap();
+        self.oracle.flush().unwrap();
+        self.announced = true;
+    }
+
     pub fn case(&mut self, case: &str, answer: &str, oracle: Option<Result<(), String>>, nontrivial: bool) {
         let id = self.next_id;
         self.next_id += 1;
         self.evaluations += 1;
-        writeln!(self.cases, "{} {}", id, case).unwrap();
+        if !self.announced {
+            writeln!(self.cases, "{} {}", id, case).unwrap();
+        }
+        self.announced = false;
         writeln!(self.imp, "{} {}", id, answer).unwrap();
         match oracle {
             None => {}
